@@ -13,7 +13,8 @@ SETTINGS_THOROUGH = {"max_paths": 200000, "case_budget": 1200.0, "budget_s": 150
 BOUNDS = {"quick": "2 real threads parsing independent symbolic streams with the same type objects under a controlled scheduler (one "
                    "runnable at a time, hand-over only at 'line' events inside repository files or generated readers); which thread runs "
                    "next at each switch point is an ENGINE DECISION VARIABLE; <= 1 pre-emption; 6 definitions (expression-sized arrays, "
-                   "bit-fields, union, pointer dereference, enum, nested struct); switch points inside C calls do not exist (GIL)",
+                   "bit-fields, union, pointer dereference, enum, nested struct); the threads run on types that were never used before (first-use "
+                   "initialisation races) or were used once on unrelated symbolic input (remembered-state races); dumps for the union; switch points inside C calls do not exist (GIL)",
           "thorough": "as quick with <= 2 pre-emptions for the expression kernels, 3 threads for the smallest definition, and dumps as well"}
 
 DEFS = {
@@ -125,19 +126,27 @@ def make(case):
     kind, cfg, nthreads, max_preempt, dump = case["kind"], case["cfg"], case["threads"], case["preempt"], case.get("dump", False)
     text, n = DEFS[kind]
 
+    warm = case.get("warm", False)
+
     def run(ctx):
         from dissect.cstruct import cstruct
         import dissect.cstruct as pkg
         import os
         files = [os.path.dirname(pkg.__file__)]
+        # sequential results come from one universe, the threads run in another one whose types were never used
+        # (or, "warm", were used once on unrelated symbolic input): first-use initialisation and remembered state both show
+        cs_seq = cstruct(endian=cfg["endian"])
+        cs_seq.load(text, compiled=cfg["compiled"])
         cs = cstruct(endian=cfg["endian"])
         cs.load(text, compiled=cfg["compiled"])
-        Tcls = cs.T
+        Tseq, Tcls = cs_seq.T, cs.T
         datas = [ctx.bytes(f"t{i}", n) for i in range(nthreads)]
 
-        def body(i):
+        def body(i, cls=None):
+            cls = Tcls if cls is None else cls
+
             def f():
-                v = Tcls.read(ctx.stream(datas[i]))
+                v = cls.read(ctx.stream(datas[i]))
                 out = summarize(v, kind)
                 if dump:
                     out.append(v.dumps())
@@ -146,9 +155,16 @@ def make(case):
         seq = []
         for i in range(nthreads):
             try:
-                seq.append(("ok", body(i)()))
+                seq.append(("ok", body(i, Tseq)()))
             except Exception as e:  # noqa: BLE001
                 seq.append(("exc", type(e).__name__))
+        if warm:
+            try:
+                wv = Tcls.read(ctx.stream(ctx.bytes("warm", n)))
+                if dump:
+                    wv.dumps()
+            except Exception:  # noqa: BLE001
+                pass
         counter = [0]
 
         def choose(k):
@@ -180,12 +196,19 @@ def cases(tier, seed):
         for compiled in (False, True):
             for endian in ("<",) if quick else ("<", ">"):
                 cfg = {"endian": endian, "compiled": compiled}
-                K = 8 if kind.startswith("expr") else 2
-                for k in range(K):
-                    yield {"label": f"{kind} threads=2 preempt=1 slice={k}/{K}", "kind": kind, "cfg": cfg, "threads": 2, "preempt": 1,
-                           "slice": [k, K]}
+                K = 8 if kind.startswith("expr") else 4 if kind == "union" else 2
+                variants = [(False, False)]
+                if kind == "expr-array" or not quick:
+                    variants.append((True, False))
+                if kind == "union" or not quick:
+                    variants.append((False, True))
                 if not quick:
-                    yield {"label": f"{kind} threads=2 preempt=1 dump", "kind": kind, "cfg": cfg, "threads": 2, "preempt": 1, "dump": True}
+                    variants.append((True, True))
+                for warm, dump in variants:
+                    for k in range(K):
+                        yield {"label": f"{kind} threads=2 preempt=1 warm={warm} dump={dump} slice={k}/{K}", "kind": kind, "cfg": cfg,
+                               "threads": 2, "preempt": 1, "slice": [k, K], "warm": warm, "dump": dump}
+                if not quick:
                     if kind in ("expr-2", "enum"):
                         for k in range(16):
                             yield {"label": f"{kind} threads=2 preempt=2 slice={k}/16", "kind": kind, "cfg": cfg, "threads": 2, "preempt": 2,
